@@ -1,6 +1,7 @@
 package main
 
 import (
+	"go/token"
 	"strings"
 
 	"golang.org/x/tools/go/ssa"
@@ -394,11 +395,10 @@ func c05r5(r *R) {
 // still counts; a conditional call to it does not.
 func mustPassLoopOver(c *Ctx, fn *ssa.Function, field string, depth int) bool {
 	ev := func(i ssa.Instruction) int {
-		if v, ok := i.(ssa.Value); ok {
-			if e := c.Expr(v); strings.HasPrefix(e, "builtin.len(") && strings.HasSuffix(e, "."+field+")") {
-				if call, ok := i.(*ssa.Call); ok && call.Common().Value.Name() == "len" {
-					return 1
-				}
+		// the slice is read from the field (once, before either form of loop over it)
+		if u, ok := i.(*ssa.UnOp); ok && u.Op == token.MUL {
+			if fa, ok := u.X.(*ssa.FieldAddr); ok && fieldName(fa.X.Type(), fa.Field) == field {
+				return 1
 			}
 		}
 		if depth > 0 {
